@@ -31,6 +31,27 @@ type c17Call struct {
 	ok     bool
 	got    []string
 	errStr string
+	raw    []transaction.Transaction // read: the listing as it was handed out (kept by the caller)
+}
+
+// changedListings re-reads every listing that was handed out earlier: what a caller was given must not change
+// afterwards, whatever calls follow.
+func (w *c17World) changedListings(calls []*c17Call) []string {
+	var out []string
+	for _, c := range calls {
+		if c.Kind != "read" {
+			continue
+		}
+		var now []string
+		for _, t := range c.raw {
+			now = append(now, w.label(t))
+		}
+		sort.Strings(now)
+		if strings.Join(now, ",") != strings.Join(c.got, ",") {
+			out = append(out, fmt.Sprintf("the listing handed to %s was %v and reads %v after later calls", c.By, c.got, now))
+		}
+	}
+	return out
 }
 
 type c17World struct {
@@ -105,6 +126,7 @@ func (w *c17World) do(c *c17Call) {
 			c.got = append(c.got, w.label(t))
 		}
 		sort.Strings(c.got)
+		c.raw = ts
 	}
 	w.clock++
 	c.end = w.clock
@@ -172,6 +194,12 @@ func c17Body(setup string, clients []string) func(x *sched.X) {
 		for _, c := range w.calls {
 			x.Obsf("%s:%s:%s=%v%v", c.Kind, c.Tx, c.By, c.ok, c.got)
 		}
+		var all []*c17Call
+		all = append(all, w.calls...)
+		for _, who := range c17Parties {
+			all = append(all, x.Vars["final-"+who].(*c17Call))
+		}
+		x.Vars["changed"] = w.changedListings(all)
 		x.Obsf("final I=%v Rc=%v D=%v", x.Vars["final-I"].(*c17Call).got, x.Vars["final-Rc"].(*c17Call).got, x.Vars["final-D"].(*c17Call).got)
 		x.Vars["dump"] = c17Cache.VerifKeys()
 	}
@@ -219,6 +247,9 @@ func c17Oracle(name string) func(x *sched.X, r *vsched.Result) []common.Violatio
 			return out
 		}
 		w := x.Vars["w"].(*c17World)
+		if ch, _ := x.Vars["changed"].([]string); len(ch) > 0 {
+			out = append(out, common.Violation{Predicate: "C17.listing-stable", Key: "C17.listing-changed-after-it-was-returned", What: name + ": " + ch[0]})
+		}
 		// expected final set: successful saves minus successful removals
 		saved := map[string]bool{}
 		savedTwice := map[string]int{}
@@ -530,9 +561,11 @@ func c17Sequential(rep *common.Report) {
 		w := &c17World{txs: c17Txs()}
 		present := map[string]bool{}
 		var trace []string
+		var made []*c17Call
 		for _, spec := range seq {
 			c := parseCalls(spec)[0]
 			w.do(c)
+			made = append(made, c)
 			calls++
 			trace = append(trace, fmt.Sprintf("%s=%v%v", spec, c.ok, c.got))
 			switch c.Kind {
@@ -577,11 +610,15 @@ func c17Sequential(rep *common.Report) {
 			for _, who := range []string{"I", "Rc"} {
 				c := &c17Call{Kind: "read", By: who}
 				w.do(c)
+				made = append(made, c)
 				calls++
 				if strings.Join(want, ",") != strings.Join(c.got, ",") {
 					rep.Add(common.Violation{Predicate: "C17.seq-model", Key: "C17.seq/final-listing-differs", What: fmt.Sprintf("sequence %v: afterwards the list of %s is %v, reference says %v", seq, who, c.got, want), Witness: seq})
 				}
 			}
+		}
+		if ch := w.changedListings(made); len(ch) > 0 {
+			rep.Add(common.Violation{Predicate: "C17.listing-stable", Key: "C17.seq/listing-changed-after-it-was-returned", What: fmt.Sprintf("sequence %v: %s", seq, ch[0]), Witness: seq})
 		}
 		seqs++
 		outcomes[strings.Join(trace, ";")] = true
